@@ -3,7 +3,9 @@ package snowlife
 import (
 	"encoding/json"
 	"fmt"
+	"runtime"
 	"sort"
+	"strings"
 	"testing"
 	"time"
 
@@ -21,6 +23,11 @@ import (
 // "unresolved" forever, or makes FinishStateSync fail because a child no longer finds it.
 const findingF20 = "C21-reject-races-finish"
 
+// findingF31: rejection is transitive but one Reject call at a time. A hand-over that runs
+// between Reject(parent) and Reject(child) finds the child in the processing set, cannot fetch
+// its (rejected, hence forgotten) parent and FinishStateSync fails: the node never becomes ready.
+const findingF31 = "C21-finish-between-rejections"
+
 type c21Case struct {
 	ParsedW   int  `json:"parsedW"`
 	AcceptedW int  `json:"acceptedW"`
@@ -32,7 +39,13 @@ type c21Case struct {
 	// syncer finishes; the engine performs them while FinishStateSync is inside its RaceAt-th
 	// VerifyBlock callback (Reject does not take the chain lock, and the syncer does not hold the
 	// engine's context lock, so this interleaving exists).
-	RaceAt int  `json:"raceAt,omitempty"`
+	RaceAt int `json:"raceAt,omitempty"`
+	// Park > 0: the syncer calls FinishStateSync while the engine is parked inside a call that
+	// holds the chain lock: 1 = inside the last sync Accept (in the pre-ready accepted
+	// subscriber, before the new tip is published), 2 = inside the first sibling rejection owed
+	// for that accept (in the pre-rejected subscriber). The engine call only continues once the
+	// syncer's goroutine is seen waiting on the lock (goroutine dump), then both run to the end.
+	Park int `json:"park,omitempty"`
 	Post   []op `json:"post"` // engine ops in normal operation
 }
 
@@ -100,7 +113,19 @@ func c21Gen(rt *rapid.T) c21Case {
 	}
 	ns := rapid.SampledFrom([]int{0, 1, 2, 4, 6, 8, 12, 16, 20}).Draw(rt, "nsync")
 	c.Sync = rapid.SliceOfN(c21SyncOpGen(), ns, ns).Draw(rt, "sync")
-	if rapid.IntRange(0, 4).Draw(rt, "race") < 2 {
+	if mode := rapid.IntRange(0, 11).Draw(rt, "schedule") - 2; mode >= 4 {
+		// the syncer finishes while the engine is parked inside the last accept or inside
+		// the first sibling rejection owed for it
+		c.Park = 1
+		if mode >= 7 {
+			c.Park = 2
+		}
+		if rapid.Bool().Draw(rt, "parkBranch") {
+			c.Sync = append(c.Sync, op{K: "accB", A: recencyGen.Draw(rt, "branch"), B: 1})
+		} else {
+			c.Sync = append(c.Sync, op{K: "accP", A: 1})
+		}
+	} else if mode >= 1 {
 		// the engine's last action before the syncer finishes is an accept (of one block) whose
 		// sibling rejections are still owed
 		c.RaceAt = rapid.IntRange(1, 4).Draw(rt, "raceAt")
@@ -155,10 +180,68 @@ func (e *eng) startSync(targetH int) error {
 // finish: the syncer hands over the state of the accepted block `sel` heights below the tip.
 // pending are rejections the engine still owes for its last accept; they are performed from
 // inside FinishStateSync's raceAt-th VerifyBlock callback (or right after it returned).
-func (e *eng) finish(sel int, pending []ids.ID, raceAt int) error {
+// parkedFinish is a FinishStateSync started by the syncer's goroutine while the engine thread was
+// parked inside Accept / Reject.
+type parkedFinish struct {
+	tIdx int
+	done chan error
+	err  error // inconclusive: the goroutine was never seen waiting
+}
+
+// syncerWaitsOnChainLock: positive evidence from a goroutine dump that the syncer's goroutine is
+// inside FinishStateSync and inside the mutex Lock call (so whatever it reads before taking the
+// lock has been read).
+func syncerWaitsOnChainLock() bool {
+	buf := make([]byte, 1<<20)
+	n := runtime.Stack(buf, true)
+	for _, g := range strings.Split(string(buf[:n]), "\n\n") {
+		if strings.Contains(g, ").FinishStateSync(") && strings.Contains(g, "sync.(*Mutex).Lock") {
+			return true
+		}
+	}
+	return false
+}
+
+// launchParked runs on the engine thread from inside a subscriber (chain lock held by the
+// engine call in flight). The syncer finishes on the accepted block sel below the tip it knows.
+func (e *eng) launchParked(sel int) *parkedFinish {
+	n := len(e.chain)
+	tIdx := n - 1 - sel%n
+	tID := e.chain[tIdx]
+	tb := e.blocks[tID].b
+	o := &out{blk: tb, Digest: e.D[tID], Src: "sync"}
+	a := &acc{out: o, AccDigest: e.AD[tID]}
+	pf := &parkedFinish{tIdx: tIdx, done: make(chan error, 1)}
+	vm, ctx := e.vm, e.ctx
+	e.ch.onVerify = func(_ *out, _ *blk) (bool, error) {
+		_, herr := vm.HealthCheck(ctx)
+		return true, herr
+	}
+	go func() { pf.done <- vm.FinishStateSync(ctx, tb, o, a) }()
+	deadline := time.Now().Add(awaitBound)
+	for !syncerWaitsOnChainLock() {
+		select {
+		case err := <-pf.done: // it did not have to wait (the engine call holds no lock): also a valid schedule
+			pf.done <- err
+			return pf
+		default:
+		}
+		if time.Now().After(deadline) {
+			pf.err = errInconclusive{"the syncer's goroutine was never seen waiting on the chain lock"}
+			return pf
+		}
+		time.Sleep(50 * time.Microsecond)
+	}
+	return pf
+}
+
+func (e *eng) finish(sel int, pending []ids.ID, raceAt int, pf *parkedFinish) error {
 	// lowest height h such that the node holds every accepted block in [h, tip]
 	n := len(e.chain)
 	k := sel % n
+	if pf != nil {
+		k, raceAt = n-1-pf.tIdx, 0
+	}
 	tIdx := n - 1 - k
 	tID := e.chain[tIdx]
 	tb := e.blocks[tID].b
@@ -222,7 +305,7 @@ func (e *eng) finish(sel int, pending []ids.ID, raceAt int) error {
 	}
 	raceDone := make(chan struct{})
 	var raceErr error
-	e.ch.onVerify = func(_ *out, _ *blk) (bool, error) {
+	hook := func(_ *out, _ *blk) (bool, error) {
 		nCalls++
 		if raceAt > 0 && nCalls == raceAt && !raced && len(order) > 0 {
 			// the engine thread, between its Accept and the sibling rejections, gets to run now.
@@ -245,7 +328,22 @@ func (e *eng) finish(sel int, pending []ids.ID, raceAt int) error {
 		_, herr := e.vm.HealthCheck(e.ctx)
 		return true, herr
 	}
-	ferr := e.vm.FinishStateSync(e.ctx, tb, o, a)
+	if pf == nil {
+		e.ch.onVerify = hook
+	}
+	var ferr error
+	if pf != nil {
+		if pf.err != nil {
+			return pf.err
+		}
+		select {
+		case ferr = <-pf.done:
+		case <-time.After(awaitBound):
+			return errInconclusive{"the parked FinishStateSync did not return"}
+		}
+	} else {
+		ferr = e.vm.FinishStateSync(e.ctx, tb, o, a)
+	}
 	e.ch.onVerify = nil
 	if raced {
 		select {
@@ -476,7 +574,7 @@ func c21Run(c c21Case, st *vstat.Stats) error {
 	defer e.shutdown()
 	nt := false
 	record := func() {
-		canon := fmt.Sprintf("%d/%d r=%t t=%d f=%d race=%d | %s | %s", c.ParsedW, c.AcceptedW, c.InitReady, c.TargetH, c.FinishSel, c.RaceAt, renderOps(c.Sync), renderOps(c.Post))
+		canon := fmt.Sprintf("%d/%d r=%t t=%d f=%d race=%d park=%d | %s | %s", c.ParsedW, c.AcceptedW, c.InitReady, c.TargetH, c.FinishSel, c.RaceAt, c.Park, renderOps(c.Sync), renderOps(c.Post))
 		ls := sortedLabels(e.labels)
 		if e.healthSeen.healthy {
 			ls = append(ls, "unhealthy-then-resolved")
@@ -485,7 +583,7 @@ func c21Run(c c21Case, st *vstat.Stats) error {
 			ls = append(ls, "init-ready")
 		}
 		st.Case(nt, canon, ls...)
-		st.Sample(nt, map[string]any{"cfg": fmt.Sprintf("w=%d/%d ready=%t target=%d finishSel=%d raceAt=%d", c.ParsedW, c.AcceptedW, c.InitReady, c.TargetH, c.FinishSel, c.RaceAt),
+		st.Sample(nt, map[string]any{"cfg": fmt.Sprintf("w=%d/%d ready=%t target=%d finishSel=%d raceAt=%d park=%d", c.ParsedW, c.AcceptedW, c.InitReady, c.TargetH, c.FinishSel, c.RaceAt, c.Park),
 			"sync": renderOps(c.Sync), "post": renderOps(c.Post), "labels": ls})
 	}
 	defer record()
@@ -502,13 +600,33 @@ func c21Run(c c21Case, st *vstat.Stats) error {
 		st.Exclude(findingF20)
 		c.RaceAt = 0
 	}
-	var pending []ids.ID
+	var (
+		pending []ids.ID
+		pf      *parkedFinish
+	)
+	if c.Park > 0 {
+		c.RaceAt = 0
+	}
 	for i, o := range c.Sync {
 		last := i == len(c.Sync)-1
+		oneBlockAccept := (o.K == "accP" && o.A == 1) || (o.K == "accB" && o.B == 1)
 		if last && c.RaceAt > 0 && (o.K == "accP" || o.K == "accB") {
 			e.deferRejects = true
 		}
+		if last && c.Park > 0 && oneBlockAccept {
+			e.deferRejects = true
+			if c.Park == 1 {
+				// the syncer finishes while this Accept is parked in the pre-ready accepted subscriber
+				e.skipTrace = true
+				e.ch.onPreAcc = func(*blk) {
+					if pf == nil {
+						pf = e.launchParked(c.FinishSel)
+					}
+				}
+			}
+		}
 		skipped, serr := e.step(o)
+		e.ch.onPreAcc, e.skipTrace = nil, false
 		if serr != nil {
 			return wrapStep(i, o, fmt.Errorf("(sync) %w", serr))
 		}
@@ -517,7 +635,7 @@ func c21Run(c c21Case, st *vstat.Stats) error {
 			st.Skip("sync-" + o.K)
 			continue
 		}
-		if len(pending) > 0 {
+		if len(pending) > 0 || pf != nil {
 			// the engine is between Accept and the sibling rejections: no observation here
 			continue
 		}
@@ -528,10 +646,66 @@ func c21Run(c c21Case, st *vstat.Stats) error {
 			return wrapStep(i, o, fmt.Errorf("(sync) %w", err))
 		}
 	}
+	if pf != nil {
+		e.label("finish-parked-in-accept")
+	}
+	if c.Park == 2 && pf == nil && len(pending) > 0 {
+		// the syncer finishes while the first owed rejection is parked in the pre-rejected subscriber
+		first := e.rejectOrder(pending)[0]
+		if st.Known(findingF31) {
+			// known finding: exclude exactly "hand-over between the rejection of a block and of its
+			// processing child": park in the rejection of a childless sibling, or not at all
+			first = ids.Empty
+			for _, id := range pending {
+				leaf := e.blocks[id].st == sProcessing
+				for _, cid := range e.blocks[id].children {
+					leaf = leaf && e.blocks[cid].st != sProcessing
+				}
+				if leaf {
+					first = id
+					break
+				}
+			}
+			if first != e.rejectOrder(pending)[0] {
+				st.Exclude(findingF31)
+			}
+		}
+		if first == ids.Empty {
+			goto noPark
+		}
+		fm := e.blocks[first]
+		e.ch.onPreRej = func(*blk) {
+			if pf == nil {
+				pf = e.launchParked(c.FinishSel)
+			}
+		}
+		rerr := fm.h.Reject(e.ctx)
+		e.ch.onPreRej = nil
+		if rerr != nil {
+			return fmt.Errorf("Reject(%s) failed: %w", fm.b, rerr)
+		}
+		e.markRejected(first)
+		var rest []ids.ID
+		for _, id := range pending {
+			if id != first {
+				rest = append(rest, id)
+			}
+		}
+		for _, cid := range fm.children {
+			if e.blocks[cid].st == sProcessing {
+				rest = append(rest, cid)
+			}
+		}
+		pending = rest
+		if pf != nil {
+			e.label("finish-parked-in-reject")
+		}
+	}
+noPark:
 	if len(e.chain) > 1 || c.TargetH > 1 {
 		e.label("accepted-during-sync")
 	}
-	if err := e.finish(c.FinishSel, pending, c.RaceAt); err != nil {
+	if err := e.finish(c.FinishSel, pending, c.RaceAt, pf); err != nil {
 		return err
 	}
 	nt = e.labels["NT-behind-tip-with-invalid"]
